@@ -2,7 +2,7 @@
 From Coq Require Import List ZArith Reals Permutation.
 From Flocq Require Import Core.
 From Coq Require Import Factorial.
-From PMH Require Import Lib.ListArr Lib.FloatFacts Model.FYShuffle Proofs.FYShuffle Proofs.FYUniform.
+From PMH Require Import Lib.ListArr Lib.FloatFacts Model.FYShuffle Proofs.FYShuffle Proofs.FYUniform Proofs.FYBalance.
 Import ListNotations.
 Close Scope R_scope.
 Open Scope nat_scope.
@@ -72,7 +72,23 @@ Proof. intros n. split; [exact (all_choices_count n)|exact (all_choices_spec n)]
 Theorem C17_choice_is_identity_in_range : forall u n, (0 <= u < n)%Z -> cpick u n = u.
 Proof. exact cpick_id. Qed.
 
+(* how far from uniform one index choice is: for every remaining count n the 2^52 values of k = u >> 12 fall into the n cells
+   as consecutive intervals [lobound n j, lobound n (j+1)), which tile [0, 2^52) and whose lengths differ from 2^52 / n by at
+   most 2 - under a uniform generator output every index has probability within 2^-51 of 1/n *)
+Theorem C17_cells_are_balanced_intervals : forall n, (1 <= n <= 2 ^ 53)%Z ->
+  (lobound n 0 = 0)%Z /\ (lobound n n = 2 ^ 52)%Z /\ 
+  (forall j k, (0 <= j < n)%Z -> (0 <= k < 2 ^ 52)%Z -> ((rne_mul_floor k n = j)%Z <-> (lobound n j <= k < lobound n (j + 1))%Z)) /\ 
+  (forall j, (0 <= j < n)%Z -> (2 ^ 52 / n - 1 <= lobound n (j + 1) - lobound n j <= 2 ^ 52 / n + 2)%Z).
+Proof. exact fy_cells_are_intervals. Qed.
+
+(* the same in terms of the raw generator output *)
+Theorem C17_pick_cells : forall u n j, (0 <= u < 2 ^ 64)%Z -> (1 <= n <= 2 ^ 53)%Z -> (0 <= j < n)%Z ->
+  ((fy_pick u n = j)%Z <-> (lobound n j * 2 ^ 12 <= u < lobound n (j + 1) * 2 ^ 12)%Z).
+Proof. exact fy_pick_cells. Qed.
+
 Print Assumptions C17_index_bound_binary64.
+Print Assumptions C17_cells_are_balanced_intervals.
+Print Assumptions C17_pick_cells.
 Print Assumptions C17_index_bound_model.
 Print Assumptions C17_block_is_permutation.
 Print Assumptions C17_reset_forgets.
